@@ -63,7 +63,7 @@ PROPS = {
     ),
     "C06": dict(
         modules=["Gopki.Props.C06"],
-        theorems=['C06.C06_b64_any_length', 'C06.C06_constant_compiles_to_itself', 'C06.mapM_constant', 'C06.C06_extensions_in_order', 'C06.C06_raw_handler', 'C06.C06_null_empty', 'B64.dec_enc'],
+        theorems=['C06.C06_b64_any_length', 'C06.C06_go_decoder_any_length', 'C06.C06_go_decoder_wrapped', 'C06.C06_constant_compiles_to_itself', 'C06.mapM_constant', 'C06.C06_extensions_in_order', 'C06.C06_raw_handler', 'C06.C06_null_empty', 'B64.dec_enc'],
         ops=["raw", "ext", "pki"],
         rule="raw: !null, !empty, every payload length 0..1100 (thorough 0..8200) plus 1535, 1536, 4096, 65536 with random bytes, hand-written malformed encodings, single-character mutations; non-trivial = accepted non-empty payload",
         modelled=["modelled, not verified: encoding/base64 StdEncoding.DecodeString (CR/LF skipping, lenient trailing bits)"],
@@ -105,15 +105,18 @@ PROPS = {
         assumptions=[],
     ),
     "C10": dict(
-        modules=['Gopki.Props.C10', 'Gopki.Model.Fs'], theorems=['Conv.second_run_noop', 'Conv.no_reason_noop', 'C10.C10_install_touches_one', 'C10.C10_install_keeps_configs', 'C11.C11_no_flags_no_regen', 'Fs.write_frame', 'Fs.delete_frame'], ops=['hist', 'fsops'],
-        rule="hist: forests of 1-4 entities, a first default run, then 1-5 (thorough 1-9) steps drawn from {edit config, delete/truncate/strip-block/replace artifact, touch config, run with one of 12 flag sets, run with an injected write fault (error / torn prefix / death after write)}, "
+        modules=['Gopki.Props.C10', 'Gopki.Model.Fs', 'Gopki.Model.Cli'], theorems=['Conv.second_run_noop', 'Conv.no_reason_noop', 'C10.C10_install_touches_one', 'C10.C10_install_keeps_configs', 'C11.C11_no_flags_no_regen', 'Fs.write_frame', 'Fs.delete_frame', 'Cli.consent_table'], ops=['hist', 'fsops', 'cli'],
+        rule="cli: the real gopki binary as a process on a real scratch directory: forests of 1-3 entities (a third with profiles), 3-8 steps of {edit, delete artifact, touch, run with one of 12 flag spellings and one of 11 answers on stdin}, ending with two default runs; "
+             "the overwrite prompt must appear exactly when a certificate would be replaced, only a `y` line lets the run proceed, any other answer leaves every file byte-identical with unchanged times; a run that proceeds is replayed on the model like an in-process run (certificates byte for byte); "
+             "hist: forests of 1-4 entities, a first default run, then 1-5 (thorough 1-9) steps drawn from {edit config, delete/truncate/strip-block/replace artifact, touch config, run with one of 12 flag sets, run with an injected write fault (error / torn prefix / death after write)}, "
              "then a default run (convergence evaluated) and another default run (must be a no-op); every run is replayed on the model from the directory observed before it; non-trivial = at least three runs",
         modelled=['modelled, not verified: encoding/asn1 marshalling (Gopki.Base.Asn1 / Gopki.Model.Generator), encoding/pem, encoding/json (Gopki.Model.Hash), io/fs walk order, MapFS, YAML/JSON-schema front end (identity)', 'signature mathematics and key generation: oracle inputs; verification done by the harness with crypto/ecdsa, crypto/rsa and the keybase brainpool curves'],
         assumptions=['monotone clock: every write stamps a later mtime than all earlier ones (real time.Now on a MapFS)'],
     ),
     "C11": dict(
-        modules=["Gopki.Props.C11"], theorems=['C11.C11_needsUpdate_iff', 'C11.C11_plan_eq_spec', 'C11.foldl_planStep_spec', 'C11.C11_no_flags_no_regen', 'C11.C11_flags_table', 'C11.C11_strategy_bits', 'Conv.run_converges', 'Forest.bfs_main'], ops=['hist', 'pki'],
-        rule="hist: forests of 1-4 entities, a first default run, then 1-5 (thorough 1-9) steps drawn from {edit config, delete/truncate/strip-block/replace artifact, touch config, run with one of 12 flag sets, run with an injected write fault (error / torn prefix / death after write)}, "
+        modules=['Gopki.Props.C11', 'Gopki.Model.Cli'], theorems=['C11.C11_needsUpdate_iff', 'C11.C11_plan_eq_spec', 'C11.foldl_planStep_spec', 'C11.C11_no_flags_no_regen', 'C11.C11_flags_table', 'C11.C11_strategy_bits', 'Cli.default_strategy', 'Cli.single_flags', 'Conv.run_converges', 'Forest.bfs_main'], ops=['hist', 'pki', 'cli'],
+        rule="cli: the flags of the real binary select the strategy the model derives from the regenerated flag table (12 spellings: shorthands, combined shorthands, long names, =false), and the artifacts it rewrites are those of the model's plan; "
+             "hist: forests of 1-4 entities, a first default run, then 1-5 (thorough 1-9) steps drawn from {edit config, delete/truncate/strip-block/replace artifact, touch config, run with one of 12 flag sets, run with an injected write fault (error / torn prefix / death after write)}, "
              "then a default run (convergence evaluated) and another default run (must be a no-op); every run is replayed on the model from the directory observed before it; non-trivial = at least three runs" + "pki: forests of 1-5 entities (random parent vector, nested directories, yaml/yml/json), every key algorithm except RSA>=2048 in quick, configured/omitted signature algorithms, "
              "subjects from the documented grammar incl. UTF-8 and custom OIDs, 0-6 extensions of all 11 kinds, serials, unique ids, validity forms, manipulations in 1 of 5 forests, 6 zone offsets, 5 flag sets; "
              "every generated certificate is compared byte for byte with the model and read by the strict decoder; non-trivial = at least one certificate generated",
